@@ -22,6 +22,7 @@ func init() {
 		},
 		Run: runC10,
 		Controls: []Control{
+			{Name: "dequeue-filters-without-storing", File: "protocols/bgp/server/update_sender.go", Old: "\tqueued.pfxs = remaining\n}", New: "\t_ = remaining\n}", Expect: "dequeue-stores-the-filtered-list"},
 			{Name: "not-found-decided-by-pointer-identity", File: "routingtable/adjRIBOut/adj_rib_out.go", Old: "\t\tif !found {\n\t\t\treturn false\n\t\t}\n", New: "\t\tif !found || sentPath == p {\n\t\t\treturn false\n\t\t}\n", Expect: "table-removal-is-withdrawn"},
 			{Name: "replaced-path-withdrawn-after-announcement", File: "routingtable/adjRIBOut/adj_rib_out.go", Old: "\t\toldPaths := a.rt.ReplacePath(pfx, p)\n\t\ta.removePathsFromClients(pfx, oldPaths)\n\t}\n\n\tfor _, client := range a.clientManager.Clients() {\n\t\terr := client.AddPath(pfx, p)\n\t\tif err != nil {\n\t\t\tlog.WithFields(log.Fields{\n\t\t\t\t\"sender\": \"AdjRIBOutAddPath\",\n\t\t\t}).WithError(err).Error(\"Could not send update to client\")\n\t\t}\n\t}\n\treturn nil\n", New: "\t\toldPaths := a.rt.ReplacePath(pfx, p)\n\t\tdefer a.removePathsFromClients(pfx, oldPaths)\n\t}\n\n\tfor _, client := range a.clientManager.Clients() {\n\t\terr := client.AddPath(pfx, p)\n\t\tif err != nil {\n\t\t\tlog.WithFields(log.Fields{\n\t\t\t\t\"sender\": \"AdjRIBOutAddPath\",\n\t\t\t}).WithError(err).Error(\"Could not send update to client\")\n\t\t}\n\t}\n\treturn nil\n", Expect: "withdraw-then-announce"},
 			{Name: "withdrawal-ignores-queue", File: "protocols/bgp/server/update_sender.go", Old: "\tu.toSendMu.Lock()\n\tu._dequeue(pfx, p)\n\tu.sendMu.Lock()\n\tu.toSendMu.Unlock()\n\n\terr := u.withdrawPrefix(u.fsm.con, pfx, p)", New: "\tu.toSendMu.Lock()\n\tu.sendMu.Lock()\n\tu.toSendMu.Unlock()\n\n\terr := u.withdrawPrefix(u.fsm.con, pfx, p)", Expect: "withdrawal-consults-queue"},
@@ -100,6 +101,7 @@ func methodLocksets(p *core.Prog, rel, typ string) (map[*core.Fn]*core.Locksets,
 
 func runC10(c *core.Ctx) {
 	tableRemovalIsWithdrawn(c, "table-removal-is-withdrawn")
+	dequeueStoresResult(c)
 	p := c.P
 	withdrawThenAnnounce(c)
 	const typ = "UpdateSender"
@@ -344,4 +346,73 @@ func withdrawThenAnnounce(c *core.Ctx) {
 			"a withdrawal is handed to the clients after (or deferred past) the announcement of the replacing path: the update sender writes withdrawals at once and a withdrawal dequeues a pending announcement for the prefix, so the peer ends up without a route the Adj-RIB-Out holds")
 	}
 	c.Check(n >= 1, rule, "AdjRIBOut methods that withdraw and announce found", token.NoPos, "none found")
+}
+
+// dequeueStoresResult: cancelling a queued announcement filters the prefix list of the queue entry.  Filtering builds the
+// kept elements (in a fresh slice, onto list[:0], or compacted in place); the entry must then be given the filtered list:
+// every exit of _dequeue behind the filtering loop passes an assignment to the entry's list or the deletion of the
+// entry.  Otherwise the list keeps its old length and the cancelled prefix (a stale tail element) is announced at the
+// next flush although the withdrawal already went out.
+func dequeueStoresResult(c *core.Ctx) {
+	const rule = "dequeue-stores-the-filtered-list"
+	p := c.P
+	c.Floor(rule, 1)
+	f := c.MustFunc(srv + ".(*UpdateSender)._dequeue")
+	pfxsF := p.Field(srv, "pathPfxs", "pfxs")
+	toSend := p.Field(srv, "UpdateSender", "toSend")
+	if f == nil || pfxsF == nil || toSend == nil {
+		if f != nil {
+			c.Undecided(rule, f.Name(), f.Decl.Pos(), "queue entry fields not found")
+		}
+		return
+	}
+	c.Analysed(f)
+	var loop ast.Stmt
+	ast.Inspect(f.Decl.Body, func(n ast.Node) bool {
+		if rs, ok := n.(*ast.RangeStmt); ok && core.FieldOf(f.Pkg, rs.X) == pfxsF {
+			loop = rs
+		}
+		return true
+	})
+	if loop == nil {
+		c.Undecided(rule, f.Name(), f.Decl.Pos(), "no loop over the entry's prefix list found")
+		return
+	}
+	gate := func(n ast.Node) bool {
+		if as, ok := n.(*ast.AssignStmt); ok {
+			for _, l := range as.Lhs {
+				if core.FieldOf(f.Pkg, l) == pfxsF {
+					if _, isIdx := core.Unparen(l).(*ast.IndexExpr); !isIdx {
+						return true
+					}
+				}
+			}
+		}
+		return core.NodeHas(n, func(x ast.Node) bool {
+			call, ok := x.(*ast.CallExpr)
+			if !ok || len(call.Args) != 2 {
+				return false
+			}
+			id, ok := call.Fun.(*ast.Ident)
+			return ok && id.Name == "delete" && core.FieldOf(f.Pkg, call.Args[0]) == toSend
+		})
+	}
+	// exits reachable from the loop without the gate
+	g := p.CFG(f)
+	isLoopNode := func(n ast.Node) bool { return n.Pos() >= loop.Pos() && n.End() <= loop.End() }
+	isRet := func(n ast.Node) bool { _, ok := n.(*ast.ReturnStmt); return ok }
+	rets := core.PathAvoidingFrom(g, isLoopNode, gate, isRet)
+	// implicit fall off the end: the last statement of the body must be (or be dominated by) a gate
+	implicit := false
+	if last := f.Decl.Body.List[len(f.Decl.Body.List)-1]; !gate(last) {
+		if _, isRetStmt := last.(*ast.ReturnStmt); !isRetStmt {
+			implicit = true
+		}
+	}
+	pos := loop.Pos()
+	if len(rets) > 0 {
+		pos = rets[0].Pos()
+	}
+	c.Check(len(rets) == 0 && !implicit, rule, f.Name()+" stores the filtered prefix list (or deletes the entry) on every path", pos,
+		"_dequeue can return after filtering without assigning the filtered list to the queue entry: the entry keeps its old length, so the cancelled prefix survives as a stale tail element and is announced at the next flush although its withdrawal was already written — the peer keeps a route the Adj-RIB-Out dropped")
 }
